@@ -81,6 +81,46 @@ theorem minInclusive_exact (z a : Int) : facetCheck (.int z) [(2, a)] = .ok ↔ 
     · have e2 : (z == a) = false := by simpa using h2
       simp [h1, e2]; omega
 
+/-- a plain pattern type over xs:token (color, time-only, ending-number, comma-separated-text,
+    language, NMTOKEN, Name …): str-typed, no union / forced literal / enumeration, token base -/
+def TokenPattern (d : SimpleDef) (k : Nat) : Prop :=
+  d.pyTypes = [0] ∧ d.union = [] ∧ d.forced = [] ∧ d.permitted = [] ∧ d.pattern = some k ∧ d.base = 1 ∧
+  d.isNonNeg = false ∧ d.isPositive = false
+
+/-- such a type accepts a string exactly when its white-space-collapsed text matches the type's
+    expression in full (no other gate, no silent acceptance) -/
+theorem token_pattern_accepts_iff (env : Env) (fuel : Nat) (d : SimpleDef) (k : Nat) (r : RE Char)
+    (h : TokenPattern d k) (hr : lookupPat k env.pats = some r) (s : String) :
+    validate env (fuel + 1) d (.str s) = .ok ↔ RE.rmatch r (cleanedToken s).toList = true := by
+  obtain ⟨h1, h2, h3, h4, h5, h6, h7, h8⟩ := h
+  simp only [validate, gateTypes, h2, List.isEmpty_nil, if_true, typeGate, inStrs, h3, List.contains_nil,
+    Bool.false_or, pyTypeOf, h1, h4, h5, h6, h7, h8, hr, fullmatch, Bool.false_and]
+  by_cases hm : RE.rmatch r (cleanedToken s).toList = true
+  · simp [hm]
+  · simp [hm]
+
+/-- a pattern type whose own restriction has no token / date / glyph-name pre-check (xs:date itself,
+    ID, IDREF, NCName, the smufl glyph-name subtypes): the raw string is matched -/
+def PlainPattern (d : SimpleDef) (k : Nat) : Prop :=
+  d.pyTypes = [0] ∧ d.union = [] ∧ d.forced = [] ∧ d.permitted = [] ∧ d.pattern = some k ∧ d.base = 0 ∧
+  d.isNonNeg = false ∧ d.isPositive = false
+
+theorem plain_pattern_accepts_iff (env : Env) (fuel : Nat) (d : SimpleDef) (k : Nat) (r : RE Char)
+    (h : PlainPattern d k) (hr : lookupPat k env.pats = some r) (s : String) :
+    validate env (fuel + 1) d (.str s) = .ok ↔ RE.rmatch r s.toList = true := by
+  obtain ⟨h1, h2, h3, h4, h5, h6, h7, h8⟩ := h
+  simp only [validate, gateTypes, h2, List.isEmpty_nil, if_true, typeGate, inStrs, h3, List.contains_nil,
+    Bool.false_or, pyTypeOf, h1, h4, h5, h6, h7, h8, hr, fullmatch, Bool.false_and]
+  by_cases hm : RE.rmatch r s.toList = true
+  · simp [hm]
+  · simp [hm]
+
+/-- non-string values never pass such a type -/
+theorem token_pattern_rejects_nonstring (env : Env) (fuel : Nat) (d : SimpleDef) (k : Nat)
+    (h : TokenPattern d k) (z : Int) : validate env (fuel + 1) d (.int z) ≠ .ok := by
+  obtain ⟨h1, h2, h3, h4, h5, h6, h7, h8⟩ := h
+  simp [validate, gateTypes, h2, typeGate, inStrs, h3, pyTypeOf, h1]
+
 /-! negative witnesses (open findings F13): values the validator accepts whose `str()` is not a
     lexical form of the XSD type -/
 def intDef : SimpleDef :=
@@ -105,6 +145,9 @@ end C05
 #print axioms C05.range_exact
 #print axioms C05.minExclusive_exact
 #print axioms C05.minInclusive_exact
+#print axioms C05.token_pattern_accepts_iff
+#print axioms C05.plain_pattern_accepts_iff
+#print axioms C05.token_pattern_rejects_nonstring
 #print axioms C05.bool_passes_integer
 #print axioms C05.exponent_float_passes_decimal
 #print axioms C05.nan_passes_decimal
